@@ -13,9 +13,9 @@
 (* the judge as {"drift":1,..}), never a verdict; the deliberate simplifications of werkzeug are     *)
 (* listed at the end of this header.                                                                  *)
 (*                                                                                                    *)
-(* Variant: "fixed"  = the implementation shape that meets the contract (the tree with               *)
-(*                     fixes/X02-*.diff applied)                                                      *)
-(*          "orig"   = the pinned tree: a leading "." of the Domain attribute is kept (the cookie is  *)
+(* Variant: "fixed"  = the implementation shape that meets the contract (the tree since the commits  *)
+(*                     of fixes/X02-*.diff: c8a85da, e0d8c2e)                                         *)
+(*          "orig"   = the tree before them: a leading "." of the Domain attribute is kept (the cookie is *)
 (*                     then sent to nobody) and a 307/308 redirect re-sends only what the application *)
 (*                     left unread of the request body                                                *)
 (*          "suffix" = domain match by plain string suffix (evil-example.com receives example.com's  *)
@@ -96,7 +96,7 @@ FromResponse(host, rp, sc, soft) ==
 \* werkzeug stores such a cookie; no werkzeug document says so: outside the contract (the judge stops judging that trace).
 InContract(host, sc) == ~HasDomain(sc) \/ DomainMatch(host, CookieDomain(sc), FALSE)
 \* Deleting.  Response.delete_cookie: "Delete a cookie. Fails silently if key doesn't exist." -- it emits Max-Age=0 and
-\*   Expires=<the epoch>; CHANGES 0.15.5 (#1491) expects a logout done this way to work with the test client.
+\*   Expires=<the epoch>; CHANGES 0.15.2 (#1491) expects a logout done this way to work with the test client.
 \* RFC 6265 5.2.2 "If delta-seconds is less than or equal to zero (0), let expiry-time be the earliest representable date and
 \*   time."  5.3 step 3: Max-Age has precedence over Expires.  5.3 step 11.3 / end: expired cookies are evicted, never sent.
 RfcDead(sc) == IF sc.ma # "none" THEN sc.ma \in {"zero", "neg"} ELSE sc.exp \in {"epoch", "past"}
@@ -137,7 +137,7 @@ NextBody(code, body) == IF KeepsBody(code) THEN body ELSE <<>>
 \* A Location value `loc`: [form, sch, host, path, qs]; form = "abs" (scheme://host/path?qs) | "path" (/path?qs) |
 \*   "net" (//host/path) | "rel" (path without leading slash) | "query" (?qs)
 \* Client.resolve_redirect: "Perform a new request to the location given by the redirect response to the previous request."
-\*   CHANGES 0.11 (#879): "test.Client now properly handles Location headers with relative URLs".  resolve_redirect: "A local
+\*   CHANGES 0.12 (#879): "test.Client now properly handles Location headers with relative URLs".  resolve_redirect: "A local
 \*   redirect with autocorrect_location_header=False doesn't have a host, so use the request's host."
 Documented(loc) == loc.form \in {"abs", "path"}
 Target(loc, cur) == IF loc.form = "abs" THEN [sch |-> loc.sch, host |-> loc.host, path |-> loc.path, qs |-> loc.qs]
